@@ -15,7 +15,7 @@ from .. import rules, flow, layout
 from ..rules import param_by_name, term_of_operand, term_str, callee_name, path_conditions, cond_true, cond_false
 from ..flow import term_contains
 from ..layout import peel
-from .common import ctx, short_site
+from .common import ctx, short_site, is_session_replacement
 from .c11 import is_call, has_call, field_path
 
 PID = 'C20'
@@ -252,7 +252,7 @@ def run(tier):
     # session fields are written field-wise nowhere outside the session's own methods
     for fld in ('fcnt_up', 'fcnt_down'):
         ws = c.pf.writers_of_field('mac::session::Session', fld, crates={'lorawan_device'})
-        outside = sorted({b.path.replace(D, '') for b, bb, si, s, k in ws if 'mac::session::' not in b.path and 'Deserialize' not in b.path and 'certification' not in b.path and 'multicast' not in b.path})
+        outside = sorted({b.path.replace(D, '') for b, bb, si, s, k in ws if not is_session_replacement(b, s, k) and 'mac::session::' not in b.path and 'Deserialize' not in b.path and 'certification' not in b.path and 'multicast' not in b.path})
         res.require(not outside, 'C20:who-writes:Session.%s' % fld, 'Session.%s is written outside the session module: %s' % (fld, outside), fld, 'WHO-WRITES(Session.%s)' % fld,
                     instance='Session.%s written only by the session methods and deserialisation' % fld)
     res.coverage.update({'configs': [c.info], 'session_fields': [f['name'] for f in prog.adts[DERIVED_STRUCTS[0]]['variants'][0]['fields']], 'newtypes': NEWTYPES})
